@@ -150,6 +150,14 @@ def shutdownGrid (g : Grid) : List GEv :=
   g.shards.flatMap (fun s => [.shard s .indexPrepare, .shard s .indexFlush]) ++
   g.shards.flatMap (fun s => [GEv.shard s .indexPrepare, GEv.shard s .indexFlush] ++ (g.families s).flatMap (famClose s))
 
+/-- the part of the graceful shutdown that has run when `dataFamily.Close` of family `(s, f)` begins -/
+def shutdownUpTo (g : Grid) (s f : Nat) : List GEv :=
+  [.db .metaPrepare, .db .metaFlushMetric, .db .metaFlushTagv] ++
+  g.shards.flatMap (fun s' => [.shard s' .indexPrepare, .shard s' .indexFlush]) ++
+  (g.shards.takeWhile (· != s)).flatMap
+    (fun s' => [GEv.shard s' .indexPrepare, GEv.shard s' .indexFlush] ++ (g.families s').flatMap (famClose s')) ++
+  [GEv.shard s .indexPrepare, GEv.shard s .indexFlush] ++ ((g.families s).takeWhile (· != f)).flatMap (famClose s)
+
 /-- one tick of the WAL garbage collector (`writeAheadLog.destroy`): `IsExpire` of every partition; the
 time-window test is outside the model, `expired` names the family hours that are past their window -/
 def walGcTick (g : Grid) (expired : List Nat) : List GEv :=
